@@ -346,6 +346,13 @@ Theorem C16_cart_fuel_suffices_partial : forall anchor sides n per cells ph targ
 Proof. exact cart_fuel_suffices_thm. Qed.
 Print Assumptions C16_cart_fuel_suffices_partial.
 
+(* why the bound is partial: one cell, periodic in x, zero density, photon along +x: the loop of the (binary64) model
+   does not end for ANY fuel; the real loop does not return either (not run by the check: it would hang) *)
+Theorem C16_cart_periodic_vacuum_never_ends : forall fuel,
+  f_cart_interact fuel cg_ring (fun _ => vacuum_cell) ph_centre 1%float = CErrFuel.
+Proof. exact cart_periodic_vacuum_never_ends_thm. Qed.
+Print Assumptions C16_cart_periodic_vacuum_never_ends.
+
 (* update_integrals on the hydrogen mean intensity: + weight * sigma_H * (length credited to the cell); cells of
    zero density are not touched *)
 Theorem C16_cart_J_exact : forall (cells : Z -> cellc R) (ph : lphoton R) (vis : list (Z * R)) (j0 : R) (c : Z),
